@@ -459,7 +459,23 @@ func (c *Client) Tx(ctx context.Context, hash []byte, prove bool) (*ctypes.Resul
 	}
 
 	// Validate the proof.
-	return res, res.Proof.Validate(l.DataHash)
+	if err := res.Proof.Validate(l.DataHash); err != nil {
+		return nil, err
+	}
+
+	// The proof is for Proof.Data at position Proof.Proof.Index: make sure that
+	// is the transaction (and hash and index) being returned.
+	if !bytes.Equal(res.Tx, res.Proof.Data) {
+		return nil, fmt.Errorf("tx %X is not the tx of the proof %X", res.Tx.Hash(), res.Proof.Data.Hash())
+	}
+	if !bytes.Equal(res.Hash, res.Tx.Hash()) {
+		return nil, fmt.Errorf("hash %X is not the tx hash of the proof %X", res.Hash, res.Tx.Hash())
+	}
+	if int64(res.Index) != res.Proof.Proof.Index {
+		return nil, fmt.Errorf("tx index %d is not the index of the proof %d", res.Index, res.Proof.Proof.Index)
+	}
+
+	return res, nil
 }
 
 func (c *Client) TxSearch(
